@@ -25,8 +25,8 @@ CONSTANTS
   Devs = %(devs)s
   defaultInitValue = defaultInitValue
   NFree = %(nfree)d
-  Menu = %(menu)s
-  Menu2 = %(menu2)s
+  MenuSeq <- MenuSeqV
+  Menu2Seq <- Menu2SeqV
 CHECK_DEADLOCK FALSE
 VIEW View
 INVARIANTS
@@ -326,15 +326,15 @@ def run(pid, tier):
         d11 = "D11" in active or any(f["id"] == "D11" and f["status"] == "known" and pid in f["properties"] for f in load_findings())
 
         # ---- MC + RP over the bounded universe
-        ALLSHAPES = "{" + ",".join(str(i) for i in range(1, 28)) + "}"
+        ALLSHAPES = "<<" + ",".join(str(i) for i in range(1, 28)) + ">>"
         # (free relations, shapes of the first one, shapes of the others)
-        universes = [(2, ALLSHAPES, "{1,3,4,6,9,11,13,22,27}")] if tier == "quick" else \
-                    [(2, ALLSHAPES, ALLSHAPES), (3, "{1,2,4,6,8,9,11,12,13,14,16,17,22,25,26,27}", "{1,4,6,9,11,22,27}")]
+        universes = [(2, ALLSHAPES, "<<1,3,4,6,9,11,13,22,27>>")] if tier == "quick" else \
+                    [(2, ALLSHAPES, ALLSHAPES), (3, "<<1,2,4,6,8,9,11,12,13,14,16,17,22,25,26,27>>", "<<1,4,6,9,11,22,27>>")]
         states = trans = 0
         allmodels = []
         for nfree, menu, menu2 in universes:
             cfg = MC_CFG % {"devs": DEVS_CURRENT, "nfree": nfree, "menu": menu, "menu2": menu2}
-            res = run_tlc("WGraphMC", cfg, sc, cache=True, timeout=3000)
+            res = run_tlc("WGraphMC", cfg, sc, cache=True, timeout=3000, defs="MenuSeqV == %s\nMenu2SeqV == %s" % (menu, menu2))
             if res.violated:
                 raise Infra("design-level invariant(s) %s violated on the Impl layer of spec/WGraph.tla (universe NFree=%d): the "
                             "specification no longer describes code that satisfies the property modulo listed findings\n%s" % (res.violated, nfree, res.tail[-1500:]))
